@@ -296,7 +296,7 @@ class Findings:
 
 def judge(fnd, base, w, pr, e, stats):
     """Turns the Coq answers for one input into findings. Returns True if the input was decided by the oracle."""
-    inp = GR.render(w)
+    inp = base.get("text", GR.render(w))
     if pr["kind"] not in ("OK", "ERR"):
         fnd.add("glr-" + pr["kind"].lower(), "the real GLR parser did not return on an in-scope grammar: %s" % pr["kind"],
                 dict(base, input=inp, real=pr.get("raw", "")[:300]))
@@ -336,7 +336,7 @@ def judge(fnd, base, w, pr, e, stats):
                              obligation="oracle all_trees (Properties/C03.v oracle_exact)"))
                 break
     m = e.get("model")
-    if pr["kind"] == "OK":
+    if pr["kind"] == "OK" and not pr.get("nomodel"):
         if m is None or len(m) != 7:
             fnd.add("coq-eval", "model answer missing", dict(base, input=inp, answer=m), found_input=False)
         else:
@@ -353,6 +353,147 @@ def judge(fnd, base, w, pr, e, stats):
                                 found_input=False)
                     break
     return decided
+
+
+# ------------------------------------------------------------------ lexical ambiguity family
+LEXEMES = ["a", "aa", "b", "ab", "aab", "ba", "bb"]
+
+
+def segmentations(text, lex, limit=40):
+    """all ways to read `text` as a sequence of terminals (letter -> literal), whitespace skipped before every token
+    and at the end: list of [(letter, start, end)]"""
+    out = []
+
+    def skip(i):
+        while i < len(text) and text[i] in " \t\n":
+            i += 1
+        return i
+
+    def go(i, acc):
+        if len(out) > limit:
+            return
+        i = skip(i)
+        if i == len(text):
+            out.append(list(acc))
+            return
+        for letter, lit in lex.items():
+            if text.startswith(lit, i):
+                acc.append((letter, i, i + len(lit)))
+                go(i + len(lit), acc)
+                acc.pop()
+    go(0, [])
+    return out
+
+
+def leaves_of(t):
+    if t[0] == "T":
+        return [(t[1], t[3][0], t[4][0])]
+    r = []
+    for c in t[2]:
+        r.extend(leaves_of(c))
+    return r
+
+
+def lexical_family(rep, tier, seed, fnd, stats):
+    """Grammars whose terminals overlap ('a', 'aa', 'ab', ...) with every lexical strategy off: the GLR parser follows
+    every token the state expects, so the derivation trees of an input are the trees of ALL its tokenizations. The
+    forest is split by the token sequence of its trees; every token sequence must be a tokenization of the input and
+    each part is compared with the verified oracle for that token word."""
+    rng = random.Random(seed * 7919 + 303)
+    shapes = [
+        ("lex-a-aa", 3, [("S", [["A", "a", "C"]]), ("A", [["a"], ["b"]]), ("C", [["c"]])], {"a": "a", "b": "aa", "c": "b"}),
+        ("lex-list", 2, [("S", [["S", "A"], ["A"]]), ("A", [["a"], ["b"]])], {"a": "a", "b": "aa"}),
+        ("lex-prefix", 3, [("S", [["a", "b"], ["c"]])], {"a": "a", "b": "ab", "c": "aab"}),
+        ("lex-cross", 3, [("S", [["A", "B"]]), ("A", [["a"], ["b"]]), ("B", [["a"], ["c"]])], {"a": "a", "b": "ab", "c": "ba"}),
+    ]
+    fam = []
+    for shape, nt, rules, lex in shapes:
+        fam.append((GR.G(rules, nt, shape=shape), lex))
+    n = 40 if tier == "quick" else 400
+    for _ in range(n):
+        g = strip(GR.random_grammar(rng))
+        if g.nterms > 4:
+            continue
+        lits = rng.sample(LEXEMES, g.nterms)
+        fam.append((GR.G(g.rules, g.nterms, shape="lex:" + g.shape), dict(zip(GR.TERMS[:g.nterms], lits))))
+    flags = dict(sppf=0, ps=0, pse=0, go=0, lm=0, ms=0, skipws=1)
+
+    def gtext(g, lex):
+        t = g.text()
+        head, _, _ = t.partition("terminals\n")
+        return head + "terminals\n" + "".join("T%s: '%s';\n" % (l, lex[l]) for l in GR.TERMS[:g.nterms])
+    probe = [Case("lp%d" % k, gtext(g, lex), [], algo="GLR", table="LALR_RN", run="NONE", flags=flags, meta=dict(k=k))
+             for k, (g, lex) in enumerate(fam)]
+    dumps = []
+    for r in run_cases(probe, "c03lexprobe"):
+        if r.status == "OK" and r.dump is not None and not r.dump.missing_rec:
+            dumps.append((r.case.meta["k"], r.dump))
+    scope = scope_jobs("c03lexscope", dumps)
+    inscope = [k for k, d in dumps if not isinstance(scope.get(k), dict) and all(scope.get(k))]
+    cases, texts_of = [], {}
+    for k in inscope:
+        g, lex = fam[k]
+        valid, longer, invalid, _ = GR.inputs_for(g, rng, maxlen=4, nvalid=12, ninvalid=4)
+        texts = []
+        for w in list(valid) + list(invalid):
+            sep = rng.choice(["", "", "", " "])
+            texts.append(sep.join(lex[x] for x in w))
+        texts = sorted(set(t for t in texts if len(t) <= 10))
+        texts_of[k] = texts
+        cases.append(Case("lx%d" % k, gtext(g, lex), texts, algo="GLR", table="LALR_RN", run="GLR", flags=flags,
+                          meta=dict(k=k)))
+    items = []
+    n_inputs = n_multi = n_words = 0
+    for r in run_cases(cases, "c03lex"):
+        k = r.case.meta["k"]
+        g, lex = fam[k]
+        base = dict(grammar=r.case.grammar, algo="GLR", table="LALR_RN", flags=flags)
+        if r.status != "OK" or r.dump is None:
+            continue
+        ins = []
+        for i, text in enumerate(texts_of[k]):
+            pr = parse_glr(r.results.get(("GLR", i)))
+            if pr["kind"] not in ("OK", "ERR"):
+                continue        # harness-level timeouts are the token-level family's business
+            if pr["kind"] == "OK" and (len(pr["trees"]) != pr["n"] or pr["none_trees"]):
+                continue
+            segs = segmentations(text, lex)
+            if len(segs) > 12:
+                continue
+            n_inputs += 1
+            n_multi += int(len(segs) > 1)
+            trees = pr["trees"] if pr["kind"] == "OK" else []
+            bykey = {}
+            for t in trees:
+                bykey.setdefault(tuple(leaves_of(t)), []).append(t)
+            segkeys = [tuple((GR.TERMS.index(l) + 1, a, b) for l, a, b in sg) for sg in segs]
+            stray = [kk for kk in bykey if kk not in segkeys]
+            if stray:
+                fnd.add("forest-tree-not-over-input", "a tree of the real forest has a token sequence that is not a "
+                        "tokenization of the input (kind, start, end of its leaves)",
+                        dict(base, input=text, leaves=list(stray[0]), tokenizations=[list(x) for x in segkeys][:6],
+                             real_solutions=pr.get("n", 0)))
+                continue
+            for j, (sg, sk) in enumerate(zip(segs, segkeys)):
+                sub = bykey.get(sk, [])
+                w = tuple(l for l, _, _ in sg)
+                spr = dict(kind="OK" if sub else "ERR", n=len(sub), amb=0, idx=True, iter=True, oor=True, trees=sub,
+                           none_trees=0, sppf=None, raw="", nomodel=True)
+                ins.append((i * 100 + j, w, spr, text))
+                n_words += 1
+        if ins:
+            items.append((k, r.dump, ins, base))
+    ev = eval_inputs("c03lex", [(k, d, [(i, w, pr) for i, w, pr, _ in ins]) for k, d, ins, _ in items], nfiles=NCPU)
+    n_decided = 0
+    for k, d, ins, base in items:
+        for i, w, pr, text in ins:
+            e = ev.get((k, i), dict(error="no answer"))
+            b2 = dict(base, text=text, tokenization=" ".join(w))
+            if judge(fnd, b2, w, pr, e, stats):
+                n_decided += 1
+    return dict(lexical_grammars=len(fam), lexical_grammars_in_scope=len(inscope), lexical_inputs=n_inputs,
+                lexical_inputs_with_several_tokenizations=n_multi, lexical_token_words_judged=n_words,
+                lexical_token_words_decided=n_decided)
 
 
 def run(rep, tier, seed):
@@ -457,6 +598,9 @@ def run(rep, tier, seed):
                                             first_tree=gl_tree(pr["trees"][0])))
                 else:
                     n_err += 1
+    lexcov = lexical_family(rep, tier, seed, fnd, stats)
+    n_inputs += lexcov["lexical_token_words_judged"]
+    n_decided += lexcov["lexical_token_words_decided"]
     fnd.report(rep)
     pt = rep.theorems or {}
     nthm = len(pt.get("theorems", []))
@@ -479,7 +623,7 @@ def run(rep, tier, seed):
              "(shortest %d kept + sample), 2 longer sampled sentences, %d mutated non-sentences, the empty input; "
              "non-trivial = inputs the real GLR parser accepted and whose forest was compared tree by tree with the oracle"
              % (maxlen, nvalid // 2, ninvalid),
-        forests_too_large_to_enumerate=len(too_large),
+        forests_too_large_to_enumerate=len(too_large), lexical_family=lexcov,
         grammars_generated=len(gs), grammars_compiler_error=n_comp_err, grammars_in_scope=len(inscope),
         out_of_scope_cyclic=out_cyclic, out_of_scope_eps_ambiguous=out_eps, out_of_scope_not_wf=out_wf,
         shapes=shapes, inputs_accepted=n_ok, inputs_rejected=n_err, inputs_ambiguous=n_amb,
